@@ -17,6 +17,7 @@ mod prims;
 mod replay;
 mod rt;
 mod streams;
+mod threads;
 
 use common::*;
 use monitors::json::J;
@@ -84,7 +85,8 @@ fn main() {
     let handle = std::thread::Builder::new()
         .stack_size(stack)
         .spawn(move || {
-            let reg = subjects::registry();
+            // checks that do not touch generated subjects skip the registry (it matters under Miri, where building it takes minutes)
+            let reg = if matches!(check.as_str(), "C10" | "C11" | "C16" | "C18probe") { sbase::Registry::new() } else { subjects::registry() };
             let gen = GenCtx { tz_names: sbase::tz_names(), ..GenCtx::default() };
             let mut ctx = Ctx {
                 check: check.clone(),
@@ -128,6 +130,10 @@ fn main() {
                 "C15" => prims::c15(&mut ctx, &mut acc),
                 "C16" => compress::c16(&mut ctx, &mut acc),
                 "C17" => encx::c17(&mut ctx, &mut acc),
+                "C18" => threads::c18(&mut ctx, &mut acc),
+                "C19" => hostile::c19(&mut ctx, &mut acc),
+                "depthprobe" => return hostile::depthprobe(&mut ctx),
+                "C18probe" => return threads::probe(),
                 "C08" => rt::c08(&mut ctx, &mut acc),
                 other => {
                     eprintln!("unknown check {other}");
